@@ -800,7 +800,7 @@ def mcp_calls(rng, intent, pop, recvs, use_config, tier):
             t = "audit-" + mode
         term = "(MtIds %s (mkMI %s %s %s))" % (KIND[verb], C.coq_bool(unknown), coq_maudit(args), body)
         calls.append(dict(transport="mcp", kind="ids", verb=verb, tool=IDS_TOOL[verb], args=args, term=term, tag=t, expect=expect,
-                          spec=dict(raw=strs)))
+                          spec=dict(raw=strs), parts=dict(unknown=unknown, body=body)))
 
     def filter_call(verb, mode="good", force=None, extra=None, tag=None, raw=None):
         f = gen_filter_fields(rng, intent, recvs, verb, force)
@@ -851,7 +851,11 @@ def mcp_calls(rng, intent, pop, recvs, use_config, tier):
             coq_target(sf.get("target", "")), coq_rstate(sf.get("state", "")), coq_before(f), lterm,
             C.coq_bool(args.get("preview_only") is True))
         calls.append(dict(transport="mcp", kind="filter", verb=verb, tool="messages_%s_by_filter" % verb, args=args, term=term, tag=t,
-                          expect=expect, spec=dict(crit=crit, fields={k: v for k, v in f.items()})))
+                          expect=expect, spec=dict(crit=crit, fields={k: v for k, v in f.items()}),
+                          parts=dict(unknown=unknown, wf=wf, route=coq_rroute(sf.get("route", "")), app=coq_label(sf.get("application", "")),
+                                     ep=coq_label(sf.get("endpoint_name", "")), target=coq_target(sf.get("target", "")),
+                                     state=coq_rstate(sf.get("state", "")), before=coq_before(f), limit=lterm,
+                                     preview=args.get("preview_only") is True)))
 
     verbs5 = list(IDS_PATH)
     verbs3 = list(FKIND)
@@ -1202,6 +1206,22 @@ def audit_probe(ctx, info, rng):
                          {"kind": "request", "case": {"tool": c["tool"], "arguments": c["args"], "config": g["config"], "setup": g["setup"]},
                           "observed": {"status": r["status"], "fields": f, "audit_results": r.get("audit")}})
     return {"mcp_mutation_audit": stats}
+
+
+def audit_probe_proxy(ctx, info, rng, start_only=False, handle=None):
+    """C20's audit clause in Admin-proxy mode (queue backend memory: the tools call the Admin API over HTTP): every call of a mutating
+    tool appends exactly one MCP audit record - also when the tool refused, the Admin API refused, the request failed at the transport
+    level (refused, reset, answer lost or cut short, 5xx, timeout) - with result success exactly for a success result.  Keys
+    mcp-mutation-audit:proxy:<tool>:<kind>.  start_only / handle: run the harness in the background and judge later."""
+    from lib import c14proxy
+    if handle is None:
+        # a few groups are enough here: managed routes (refusals by tool and by Admin), token + require_actor, the token the Admin
+        # server rejects, the allowlist miss and one slow call
+        handle = c14proxy.start(ctx, info, seed_salt=20, tier="quick", model=False,
+                                only=lambda g: g["name"] in ("managed", "token_require_actor", "token_skew", "allowlist_miss", "slow:delay_late"))
+        if start_only:
+            return handle
+    return c14proxy.finish(handle, audit_only=True)
 
 
 def run(ctx, info, rng, *_):
